@@ -14,8 +14,14 @@ def registry():
     return json.load(open(p))
 
 
-def units_for(prop):
-    return [u for u in registry() if prop in u['props'] or prop == 'all']
+def units_for(prop, tier='thorough'):
+    """units having at least one harness for prop (quick tier: only harnesses flagged quick)"""
+    out = []
+    for u in registry():
+        hs = [h for h in u['harnesses'] if (prop in h.get('props', u['props']) or prop == 'all') and (tier == 'thorough' or (h.get('quick') and (prop == 'all' or prop in h.get('quick_props', [prop]))))]
+        if hs:
+            out.append(u)
+    return out
 
 
 def version():
@@ -32,6 +38,6 @@ def trusted(units):
     return out
 
 
-def run_units(units, prop):
+def run_units(units, prop, tier='thorough'):
     from . import kani_run
-    return kani_run.run(units, prop)
+    return kani_run.run(units, prop, tier)
